@@ -116,6 +116,11 @@ class CallModels:
             if isinstance(o, OStream):
                 if attr in o.extra:
                     return [(st, o.extra[attr])]
+                cls = o.extra.get('__class')
+                if cls is not None:
+                    q = self.src.resolve_method(cls, attr)
+                    if q:
+                        return [(st, VFunc(attr, bound=b, model=('method', q)))]
                 return [(st, VFunc(attr, bound=b, model=('streammethod', attr)))]
         if isinstance(b, VDyn) and self.interface is not None:
             return self.interface.dyn_getattr(eng, b, attr, st)
